@@ -64,10 +64,18 @@ fn guarded<F: FnOnce() -> J>(f: F) -> J {
             } else {
                 "panic".to_string()
             };
-            json!({"panic": msg})
+            // the location recorded by the panic hook (file:line), so that panics can be told apart by SITE
+            let at = LAST_PANIC_AT.lock().map(|g| g.clone()).unwrap_or_default();
+            if at.is_empty() {
+                json!({"panic": msg})
+            } else {
+                json!({"panic": format!("panicked at {}: {}", at, msg)})
+            }
         }
     }
 }
+
+static LAST_PANIC_AT: std::sync::Mutex<String> = std::sync::Mutex::new(String::new());
 
 fn op_case(req: &J) -> J {
     let rules = req["rules"].as_str().unwrap_or("");
@@ -276,7 +284,11 @@ fn op_env(req: &J) -> J {
 }
 
 fn main() {
-    std::panic::set_hook(Box::new(|_| {}));
+    std::panic::set_hook(Box::new(|info| {
+        if let (Some(l), Ok(mut g)) = (info.location(), LAST_PANIC_AT.lock()) {
+            *g = format!("{}:{}", l.file(), l.line());
+        }
+    }));
     let stdin = std::io::stdin();
     let stdout = std::io::stdout();
     let mut out = stdout.lock();
